@@ -85,6 +85,8 @@ type txIng struct {
 
 type txNet struct {
 	StableExists bool      `json:"stableExists"`
+	// StableBare: the stable Service has no selector entry besides (possibly) the revision label
+	StableBare bool      `json:"stableBare,omitempty"`
 	StableSel    *string   `json:"stableSel"`
 	CanarySvc    *string   `json:"canarySvc"`
 	Custom       []txCuRef `json:"custom"`
@@ -129,7 +131,14 @@ func txCuGVK(kind string) (string, string) {
 func txBuild(n txNet) *LogClient {
 	objs := []client.Object{}
 	if n.StableExists {
-		objs = append(objs, trStableService(n.StableSel))
+		st := trStableService(n.StableSel)
+		if n.StableBare {
+			delete(st.Spec.Selector, "app")
+			if len(st.Spec.Selector) == 0 {
+				st.Spec.Selector = nil
+			}
+		}
+		objs = append(objs, st)
 	}
 	if n.CanarySvc != nil {
 		cs := trStableService(nil)
@@ -187,6 +196,15 @@ func txAbstract(cli client.Client, refs []txCuRef) J {
 		n["stableExists"] = true
 		if v, ok := s.Spec.Selector[trRevKey]; ok && v != "" {
 			n["stableSel"] = v
+		}
+		bare := true
+		for k := range s.Spec.Selector {
+			if k != trRevKey {
+				bare = false
+			}
+		}
+		if bare {
+			n["stableBare"] = true
 		}
 	}
 	cs := &corev1.Service{}
@@ -483,6 +501,7 @@ func (g txGen) custom(canary string, dirty bool) []txCuRef {
 // canary Ingress, no original-configuration annotation, Services untouched).
 func (g txGen) net(p txProv, canary string, pristine bool) txNet {
 	n := txNet{StableExists: !g.p(3)}
+	n.StableBare = n.StableExists && g.p(2)
 	gg := &gwGen{c: g.c, conf: gateway.Config{StableService: trSvc, CanaryService: trSvc + "-canary"}}
 	if g.p(97) {
 		rs := gg.route(!pristine && g.p(50))
@@ -744,12 +763,19 @@ func (w *txWalk) fault() (*int, *int) {
 }
 
 func (w *txWalk) rounds(call string, max int, doneMeans bool) {
-	extra, errs := 0, 0
+	extra, errs, idle := 0, 0, 0
 	for i := 0; i < max && !w.dead; i++ {
 		fa, fg := w.fault()
 		out := w.callF(call, fa, fg)
 		if w.dead {
 			return
+		}
+		if ws, _ := out["writes"].([]string); len(ws) == 0 && !out["err"].(bool) && out["done"].(bool) != doneMeans && fa == nil && fg == nil && !w.anyFresh() {
+			// nothing happened and nothing is being waited for (e.g. the stable Service does not exist): once more, then give up
+			idle++
+			if idle > 1 {
+				return
+			}
 		}
 		if out["err"].(bool) && fa == nil && fg == nil {
 			// an error that is not an injected fault persists (missing object, Lua error): one more round, then give up
@@ -860,6 +886,7 @@ func runTrafficX(c *Ctx) {
 				int(trafficrouting.GetGraceSeconds([]v1beta1.TrafficRoutingRef{{GracePeriodSeconds: int32(a)}, {GracePeriodSeconds: int32(b)}}, 7)))
 		}
 	}
+	runTrafficXFixed(c)
 	for c.Count < c.N {
 		if c.Rng.Intn(100) < 75 {
 			runTrafficXWalk(c)
@@ -868,6 +895,119 @@ func runTrafficX(c *Ctx) {
 				runTrafficXRandom(c)
 			}
 		}
+	}
+}
+
+// ---------------------------------------------------------------- fixed scenarios (run first, every time)
+
+const txFixedNet = `{"stableExists":true,"stableSel":null,"canarySvc":null,
+ "custom":[{"kind":"vs","obj":{"spec":[{"hosts":["svc.example.com"],"http":[{"route":[{"destination":{"host":"svc"}}]}]}],"labels":null,"annotations":{"team":"a"},"orig":null}},
+           {"kind":"dr","obj":{"spec":[{"host":"svc","subsets":[{"name":"base","labels":{"version":"base"}}]}],"labels":{"app":"demo"},"annotations":null,"orig":null}}],
+ "ing":{"stable":{"ann":{"kubernetes.io/ingress.class":"nginx"},"labels":{},"className":"nginx","tls":[],"defaultBackend":false,
+        "rules":[{"host":"a.example.com","http":[{"path":"/","pathType":"Prefix","svc":{"name":"svc","portName":"","portNumber":80},"res":null}]}]},"canary":null},
+ "route":[{"m":[{"path":{"t":"PathPrefix","v":"/"},"h":[],"q":[],"method":null}],"f":"","b":[{"kind":"Service","name":"svc","w":1,"rest":"{\"port\":80}"}]},
+          {"m":[],"f":"","b":[{"kind":"Service","name":"other","w":null,"rest":"{\"port\":8080}"}]}]}`
+
+func txFixedWalk(c *Ctx, p txProv, mod func(*txCtx, *txNet)) *txWalk {
+	ctx := txCtx{HasRef: true, Grace: trLongGrace, ExtraGrace: []int{}, DefGrace: trLongGrace, StableRev: "v1", CanaryRev: "v2",
+		LastUpdate: "none", Matches: []cMatch{}, Prov: p}
+	var n txNet
+	if err := json.Unmarshal([]byte(txFixedNet), &n); err != nil {
+		panic(err)
+	}
+	if mod != nil {
+		mod(&ctx, &n)
+	}
+	w := &txWalk{c: c, g: txGen{c}, ctx: ctx, net: n, mem: txEmptyMem(), pristine: true}
+	b, _ := json.Marshal(w.net)
+	w.orig = b
+	_ = json.Unmarshal(b, &w.net)
+	return w
+}
+
+// until: repeat the call, time passing after every round, until it is complete (or max rounds)
+func (w *txWalk) until(call string, max int, doneMeans bool) {
+	for i := 0; i < max && !w.dead; i++ {
+		out := w.call(call, nil)
+		if w.dead {
+			return
+		}
+		w.timePasses()
+		if !out["err"].(bool) && out["done"].(bool) == doneMeans {
+			return
+		}
+	}
+}
+
+func runTrafficXFixed(c *Ctx) {
+	nginx := "nginx"
+	all := txProv{Custom: true, Ingress: &nginx, Gateway: true}
+	pct := func(n int) *string { s := fmt.Sprintf("%d%%", n); return &s }
+	// 1. three providers in one ref, default grace: weight step, match step, clean-up; then the same with an
+	//    explicit grace period of 0 (RestoreGateway calls Finalise exactly once: every member must be restored by it)
+	for _, grace := range []int{trLongGrace, 0} {
+		w := txFixedWalk(c, all, func(x *txCtx, _ *txNet) { x.Grace = grace })
+		w.ctx.Traffic = pct(20)
+		w.until("doTrafficRouting", 8, true)
+		w.call("doTrafficRouting", nil)
+		w.ctx.Traffic = nil
+		ex := "Exact"
+		w.ctx.Matches = []cMatch{{H: []cAtom{{T: &ex, N: "user", V: "tester"}}, Q: []cAtom{}}}
+		w.until("doTrafficRouting", 8, true)
+		w.until("finalisingTrafficRouting", 12, true)
+		w.call("finalisingTrafficRouting", nil)
+	}
+	// 2. two providers, grace 0, the individual clean-up calls
+	{
+		w := txFixedWalk(c, txProv{Custom: true, Gateway: true}, func(x *txCtx, _ *txNet) { x.Grace = 0 })
+		w.ctx.Traffic = pct(50)
+		w.until("doTrafficRouting", 8, true)
+		w.until("restoreStableService", 3, false)
+		w.until("restoreGateway", 3, false)
+		w.until("removeCanaryService", 3, false)
+	}
+	// 3. read faults at every position of a clean-up over three providers (the k-th Get fails)
+	for k := 1; k <= 7; k++ {
+		w := txFixedWalk(c, all, func(x *txCtx, _ *txNet) { x.Grace = 0 })
+		w.ctx.Traffic = pct(20)
+		w.until("doTrafficRouting", 8, true)
+		kk := k
+		w.callF("finalisingTrafficRouting", nil, &kk)
+		w.until("finalisingTrafficRouting", 6, true)
+	}
+	// 4. the custom provider reports "verified" in the call that stores the original configuration when the script
+	//    leaves the object as it is (a VirtualService without a route to the stable Service)
+	{
+		w := txFixedWalk(c, txProv{Custom: true}, func(_ *txCtx, n *txNet) {
+			n.Custom = n.Custom[:1]
+			n.Custom[0].Obj.Spec = []interface{}{map[string]interface{}{"hosts": []interface{}{"x"}, "http": []interface{}{
+				map[string]interface{}{"route": []interface{}{map[string]interface{}{"destination": map[string]interface{}{"host": "other"}}}}}}}
+		})
+		w.ctx.Traffic = pct(30)
+		w.until("doTrafficRouting", 4, true)
+		w.call("doTrafficRouting", nil)
+	}
+	// 5. known finding sameServiceGateway: DisableGenerateCanaryService with a Gateway ref
+	{
+		w := txFixedWalk(c, txProv{Gateway: true}, func(x *txCtx, _ *txNet) { x.DisableGen, x.Grace = true, 0 })
+		w.ctx.Traffic = pct(20)
+		w.until("doTrafficRouting", 4, true)
+		w.until("finalisingTrafficRouting", 4, true)
+	}
+	// 6. known finding noRevKey: the workload cannot be read during the clean-up
+	{
+		w := txFixedWalk(c, txProv{Gateway: true}, func(x *txCtx, _ *txNet) { x.Grace = 0 })
+		w.ctx.Traffic = pct(20)
+		w.until("doTrafficRouting", 4, true)
+		f := false
+		w.ctx.HasRevKey = &f
+		w.until("finalisingTrafficRouting", 4, true)
+	}
+	// 7. known finding selectorlessStable: a stable Service without spec.selector
+	{
+		w := txFixedWalk(c, txProv{Gateway: true}, func(_ *txCtx, n *txNet) { n.StableBare = true })
+		w.ctx.Traffic = pct(20)
+		w.call("doTrafficRouting", nil)
 	}
 }
 
